@@ -406,13 +406,50 @@ fn process_violation(check: &str, base: u64, idx: u64, v: &Violation, budget_exe
         w.quit();
     }
     let mut fv = best_v.clone();
-    fv.scenario = min.clone();
-    // replay once more in a fresh process
-    let reproduced = match exec_fresh(&min) {
-        Reply::Report(rep) => same_violation(&rep, &prop, &sig).is_some(),
-        Reply::Died(how) => crash_sig && sig == format!("crash:{}", crash_class(&how)),
-        Reply::Fatal(_) => false,
+    // replay once more in a fresh process. The same signature is preferred; if the code under
+    // test keeps state across worlds, the fresh process may show the defect through another
+    // clause of the same property — that still is a reproduction, and the replay file then records
+    // what a fresh process observes.
+    let fresh = |scn: &Value| -> Option<Option<Violation>> {
+        match exec_fresh(scn) {
+            Reply::Report(rep) => {
+                if let Some(v) = same_violation(&rep, &prop, &sig) {
+                    Some(Some(v))
+                } else {
+                    rep.violations.iter().find(|v| v.property == prop).cloned().map(Some)
+                }
+            }
+            Reply::Died(how) => {
+                if crash_sig && sig == format!("crash:{}", crash_class(&how)) {
+                    Some(None)
+                } else {
+                    None
+                }
+            }
+            Reply::Fatal(_) => None,
+        }
     };
+    let mut min = min;
+    let mut reproduced = false;
+    match fresh(&min) {
+        Some(nv) => {
+            reproduced = true;
+            if let Some(nv) = nv {
+                fv = nv;
+            }
+        }
+        None => {
+            if !scn0.is_null() && min != scn0 {
+                // shrinking ran many candidates in one worker process; fall back to the unshrunk scenario
+                if let Some(nv) = fresh(&scn0) {
+                    min = scn0.clone();
+                    fv = nv.unwrap_or_else(|| v.clone());
+                    reproduced = true;
+                }
+            }
+        }
+    }
+    fv.scenario = min.clone();
     let seed = run_seed(base, check, idx);
     let name = format!("{}-{}-{:016x}.json", check, sanitize(&sig), seed);
     let path = format!("{}/{}", dir, name);
@@ -501,9 +538,42 @@ pub fn check_main(args: &[String]) -> i32 {
             }
         }
     }
+    let mut cross_world_state = false;
+    let mut nondet_fatal: Option<Vec<u64>> = None;
     if !det_mismatch.is_empty() {
-        println!("HARNESS-ERROR: nondeterminism detected: runs {:?} produced different event logs when re-executed", det_mismatch);
-        return 2;
+        // Which kind? Execute a few of the differing runs twice, each in a fresh process. If those
+        // agree with each other, every run is a pure function of its seed *in a fresh process* and
+        // the difference comes from state that the code under test (or a dependency) keeps across
+        // simulated worlds inside one worker process; otherwise the harness itself is not
+        // deterministic and nothing it reports can be believed.
+        let mut truly_nondeterministic = Vec::new();
+        for idx in det_mismatch.iter().take(4) {
+            let seed = run_seed(base, &check, *idx);
+            let scn = profiles::generate(&check, seed, profiles::tier_from(tier));
+            let h = |r: Reply| match r {
+                Reply::Report(rep) => rep.loghash,
+                Reply::Died(how) => format!("died:{}", how),
+                Reply::Fatal(e) => format!("fatal:{}", e),
+            };
+            let (h1, h2) = (h(exec_fresh(&scn)), h(exec_fresh(&scn)));
+            if h1 != h2 {
+                truly_nondeterministic.push(*idx);
+            }
+        }
+        if !truly_nondeterministic.is_empty() {
+            // Not fatal yet: if a violation is found and re-confirmed from its replay file in fresh
+            // processes it is reported (exit 1) — e.g. code under test whose threads block on each
+            // other's locks makes the interleaving timing-dependent. With no violation to report,
+            // this is a harness error (exit 2).
+            nondet_fatal = Some(truly_nondeterministic.clone());
+        }
+        cross_world_state = true;
+        if nondet_fatal.is_none() {
+        println!(
+            "NOTE process-global state: runs {:?} give a different event log after other worlds in the same worker process than in a fresh process (fresh-process executions agree with each other): the code under test or a dependency keeps state across simulated worlds. Every violation reported below was re-confirmed from its replay file in a fresh process.",
+            det_mismatch.iter().take(8).collect::<Vec<_>>()
+        );
+        }
     }
 
     // crashes / hangs are C07 violations; in other checks they are noted and left to C07
@@ -570,6 +640,13 @@ pub fn check_main(args: &[String]) -> i32 {
         println!("NOTE {} further violation signatures were not minimised in this invocation", by_sig.len() - max_processed);
         unknown += (by_sig.len() - max_processed) as u64;
     }
+    if let Some(runs) = &nondet_fatal {
+        if unknown == 0 {
+            println!("HARNESS-ERROR: nondeterminism detected: runs {:?} produced different event logs in two fresh processes", runs);
+            return 2;
+        }
+        println!("NOTE runs {:?} are not deterministic even in fresh processes (threads of the code under test block on each other's locks, or it reads an uncontrolled source); the violations below were each re-confirmed from their replay files in fresh processes.", runs);
+    }
     for l in known_hits.values() {
         println!("{}", l);
     }
@@ -623,7 +700,7 @@ pub fn check_main(args: &[String]) -> i32 {
             "distinct_states": agg.states.len(),
             "distinct_states_measure": "distinct tuples (check, delivery format, issuer alg, credential format, kb present, session class, ordered fired fault kinds with target part, verdict class per replica, oracle clause)",
             "components": {"real": cfg.real, "stub": cfg.stub},
-            "determinism_sample": {"runs_reexecuted_in_other_processes": det.agg.loghashes.len(), "event_log_hash_mismatches": 0},
+            "determinism_sample": {"runs_reexecuted_in_other_processes": det.agg.loghashes.len(), "event_log_hash_mismatches": det_mismatch.len(), "cross_world_state_in_code_under_test": cross_world_state},
             "worker_crashes_or_hangs": agg.crashes.len(),
             "known_findings_hit": known_hits.keys().collect::<Vec<_>>(),
             "violation_signatures_seen": by_sig.iter().map(|(k, v)| json!({"signature": k, "runs": v.2})).collect::<Vec<_>>(),
@@ -705,9 +782,12 @@ pub fn replay_main(args: &[String]) -> i32 {
     };
     let Some((hit1, h1)) = run("1") else { return 2 };
     let Some((hit2, h2)) = run("2") else { return 2 };
-    if h1 != h2 {
+    if h1 != h2 && !(hit1 && hit2) {
         println!("HARNESS-ERROR: replay is not deterministic ({} vs {})", h1, h2);
         return 2;
+    }
+    if h1 != h2 {
+        println!("NOTE the two replays differ in their event logs ({} vs {}) but both show the violation", h1, h2);
     }
     if hit1 && hit2 {
         println!("VIOLATION property={} replay={}", prop, path);
